@@ -37,17 +37,43 @@ def decision_edges(ctx, f, const_name):
     return out
 
 
-def decision_edges_l(ctx, f, const_name):
-    """[(test nid, succ nid, condition, truth)] like decision_edges, with the edge's condition"""
+def decision_edges_l(ctx, f, const_name, enum="SchedulerDecision"):
+    """[(test nid, succ nid, condition, truth)] branch edges on which the decision is known to be <enum>.<const_name>: the edge of a
+    test `x == <enum>.<const_name>`, or an edge that - together with the tests that dominate it - leaves that member as the only
+    possibility (`x in (STOP, PAUSE)` taken, then `x == STOP` not taken)."""
+    import re
+    from ..engine import dominating_edges
     cfg = cfg_of(f)
+    members = {k for k, v in ctx.P.cls(enum).class_attrs.items() if isinstance(v, ast.Constant)}
+    full = f"{enum}.{const_name}"
+
+    def narrow(dom, atoms):
+        """dom: {variable text: set of members}"""
+        for a in atoms:
+            if a[0] == "eq":
+                for var, const in ((a[1], a[2]), (a[2], a[1])):
+                    if const.startswith(enum + ".") and not var.startswith(enum + "."):
+                        m_ = const.split(".")[-1]
+                        cur = dom.setdefault(var, set(members))
+                        dom[var] = (cur & {m_}) if a[3] else (cur - {m_})
+            elif a[0] == "in" and a[2].strip()[:1] in "([{":
+                ms = set(re.findall(re.escape(enum) + r"\.(\w+)", a[2]))
+                if ms:
+                    cur = dom.setdefault(a[1], set(members))
+                    dom[a[1]] = (cur & ms) if a[3] else (cur - ms)
+        return dom
     out = []
     for n in cfg.nodes:
         if n.kind != "test":
             continue
+        before = {}
+        for (_, c_, t_) in dominating_edges(cfg, n.id):
+            narrow(before, atoms_of(c_, t_))
         for (s, label) in cfg.succ[n.id]:
             if isinstance(label, tuple) and label[0] == "cond":
-                for a in atoms_of(label[1], label[2]):
-                    if a[0] == "eq" and a[3] is True and any(x.endswith("." + const_name) for x in (a[1], a[2])):
+                after = narrow({k: set(v) for k, v in before.items()}, atoms_of(label[1], label[2]))
+                for var, poss in after.items():
+                    if poss == {const_name} and before.get(var, members) != {const_name}:
                         out.append((n.id, s, label[1], label[2]))
     return out
 
@@ -148,6 +174,8 @@ def s3(ctx, rep):
                 return False  # len(seq) <= 0
             if a[0] == "truth" and a[1].endswith(".metrics") and a[2] is False:
                 return False
+            if a[0] == "eq" and a[3] is True and "0" in (a[1], a[2]) and any(x.startswith("len(") and x.endswith(".metrics)") for x in (a[1], a[2])):
+                return False  # len(seq) == 0
         return True
     paths = K.body_paths(cfg, head.id)
     if not paths:
@@ -235,13 +263,28 @@ def s5(ctx, rep):
                     lists = [name for name in {x.id for x in ast.walk(f.node) if isinstance(x, ast.Name)}
                              for d in local_defs(f, name) if not isinstance(d, tuple) and box in U(d) and key in U(d)]
                     an = {m.id for m in cfg.nodes if m.kind == "stmt" and any(is_adv(m.ast, key, l) for l in lists)}
-                    p = cfg.path(cfg.entry, n.id, deleted=an)
-                    # same iteration: no path from loop head to the delete avoiding the advance
+                    # same iteration: every path through the removal also passes the advance (before or after it).  The removal is made
+                    # where the key is known to be in the mailbox; the list bound from `box.get(key)` is then not None.
                     heads = [h.id for h in cfg.nodes if h.kind == "for" and any(s is n.ast for s in stmts_in(h.ast.body))]
-                    p2 = cfg.path([s for s, l in cfg.succ[heads[-1]] if l == "iter"], n.id, deleted=an) if heads else p
+                    present = any(a[0] == "in" and a[1] == key and a[2].endswith("." + box) and a[3] is True for a in ctx.facts(f).at(n.id)) or \
+                        any(a[0] == "is" and a[1] in lists and a[2] == "None" and a[3] is False for a in ctx.facts(f).at(n.id))
+
+                    def feasible(label):
+                        if present and isinstance(label, tuple) and label[0] == "cond":
+                            for a in atoms_of(label[1], label[2]):
+                                if a[0] == "is" and a[1] in lists and a[2] == "None" and a[3] is True:
+                                    return False
+                                if a[0] == "in" and a[1] == key and a[2].endswith("." + box) and a[3] is False:
+                                    return False
+                        return True
+                    start = [s for s, l in cfg.succ[heads[-1]] if l == "iter"] if heads else [cfg.entry]
+                    goal = heads[-1] if heads else cfg.exit
+                    before = cfg.path(start, n.id, deleted=an, edge_ok=feasible)
+                    after = cfg.path([s_ for s_, l in cfg.succ[n.id]], goal, deleted=an, skip_labels=("exc",), edge_ok=feasible)
+                    p2 = (before + after) if (before is not None and after is not None) else None
                     n_inst += 1
                     rep.put(bool(an) and p2 is None, "S5", "cursor", f"SimulatorBackend.fetch_status_results: del {box}[{key}] paired with cursor advance",
-                            f, n.ast, f"`{counter}[{key}] += len(list)` precedes the removal in the same iteration",
+                            f, n.ast, f"`{counter}[{key}] += len(list)` is on every path of the iteration that removes the list",
                             "results are removed from the mailbox without advancing the cursor by their number",
                             witness=cfg.describe_path(p2) if p2 else None)
         is_reset = n.kind == "stmt" and ((isinstance(n.ast, ast.Assign) and any(
